@@ -64,6 +64,7 @@ def run(ses, rep):
         else:
             rep.add("rewrite/implementation-recognised", "inconclusive", f"{e}; the literal battery shows no changed value")
         numbers(ses, rep)
+        bracket_adjacency(ses, rep)
         return
     ex = K.ex
     QI = {n: ex.enums.index("StringLiteralQuoteType", n) for n in ("Single", "Double", "Brackets")}
@@ -115,6 +116,30 @@ def run(ses, rep):
         confirm(rep, oid, m, lit, qin, style, SI, kind)
     numbers(ses, rep)
     long_strings(ses, rep)
+    bracket_adjacency(ses, rep)
+
+
+def bracket_adjacency(ses, rep):
+    """a long-bracket string that lands directly behind `[` is read as ANOTHER literal (`t[[=[x]=]]` is `t"=[x]="`): the padding decision of
+    format_index / format_field (C01's kernel O3: is_brackets_string against a leftmost-token oracle) is part of this property too"""
+    from . import c01
+    flagged = []
+    for fs in ("default", "full"):
+        try:
+            flagged += c01.o3_brackets(ses, rep, fs)
+        except Inconclusive as e:
+            rep.add(f"brackets/{fs}", "inconclusive", str(e)[:300], nontrivial=False)
+    seen = {}
+    for oid, what, kind, info in flagged:
+        key = json.dumps(info, sort_keys=True)
+        if key not in seen:
+            seen[key] = c01.REPLAYS[kind](info)
+        v, rec = seen[key]
+        if v is None:
+            rep.add(oid, "inconclusive", f"solver model ({what}) did not reproduce on the native build")
+            continue
+        rep.add(oid, rep.violation({"obligation": "bracket-adjacency", **{k: v_ for k, v_ in info.items() if k in ("shape", "fn")}},
+                                   {"what": what, "observed": v, "kind": kind, "c01_info": info, **rec}), f"{what}; {v}")
 
 
 def long_strings(ses, rep):
@@ -377,6 +402,13 @@ def replay(path):
             print(f"VIOLATION property=C04 replay={path}")
             return 1
         return 0
+    if "c01_info" in r:
+        from . import c01
+        v, rec = c01.REPLAYS[r["kind"]](r["c01_info"])
+        print(v or "property holds for the recorded scenario")
+        if v:
+            print(f"VIOLATION property=C04 replay={path}")
+        return 1 if v else 0
     if "body" not in r:       # recorded by the literal battery / the long-string kernel: run those again
         from . import c10
         hit = literal_battery()
